@@ -284,7 +284,10 @@ func (s *Cron) Get(account, id string) (*Job, error) {
 	jobs := "jobs" + part
 	var js []byte
 	err = s.DB.View(func(tx *bolt.Tx) error {
-		js = tx.Bucket([]byte(jobs)).Get([]byte(aid))
+		// What Get returns is only valid during the transaction.
+		if got := tx.Bucket([]byte(jobs)).Get([]byte(aid)); got != nil {
+			js = append([]byte{}, got...)
+		}
 		return nil
 	})
 	if err != nil {
